@@ -265,21 +265,21 @@ def systemProps (st : PState) (index : Int) : R PState := do
   let (pi, st) ← popInt st
   let (pname, owner) ← dictNth PropTables.systemProperties pi
   let obj : Node := if st.tell then .leaf .localVar (.s (S "tell_obj")) index else .leaf .localVar (.s owner) index
-  pure (st.push (.propAcc index obj pname))
+  pure (st.push (.propAcc index obj pname false))
 
 /-- `the <prop> of <Obj> n` readers: Sprite / Cast / SoundChannel / video cast -/
 def objProp (cls : Leaf) (tbl : List String) (st : PState) (index : Int) : R PState := do
   let (pi, st) ← popInt st
   let (idn, st) ← popName st
   let prop ← listGet tbl pi
-  pure (st.push (.propAcc index (.leaf cls idn index) prop))
+  pure (st.push (.propAcc index (.leaf cls idn index) prop false))
 
 def assignObjProp (cls : Leaf) (tbl : List String) (st : PState) (index : Int) : R PState := do
   let (pi, st) ← popInt st
   let (value, st) ← st.pop
   let (idn, st) ← popName st
   let prop ← listGet tbl pi
-  pure (st.addStmt index (assignNode index (.propAcc index (.leaf cls idn index) prop) value))
+  pure (st.addStmt index (assignNode index (.propAcc index (.leaf cls idn index) prop false) value))
 
 /-! #### call_op.py -/
 
@@ -381,14 +381,14 @@ def process0 (ctx : Ctx) (info : Opcodes.OpInfo) (index : Int) (st : PState) : R
     let (menuId, st) ← popName st
     let (itemId, st) ← popName st
     let prop ← listGet PropTables.menuitemProperties pi
-    pure (st.push (.propAcc index (.menuItemAcc index (.leaf .menu menuId index) (.leaf .menuItem itemId index)) prop))
+    pure (st.push (.propAcc index (.menuItemAcc index (.leaf .menu menuId index) (.leaf .menuItem itemId index)) prop false))
   | "AssignMenuitemPropertiesOpcode" => do
     let (pi, st) ← popInt st
     let (value, st) ← st.pop
     let (menuId, st) ← popName st
     let (itemId, st) ← popName st
     let prop ← listGet PropTables.menuitemProperties pi
-    let pac := Node.propAcc index (.menuItemAcc index (.leaf .menu menuId index) (.leaf .menuItem itemId index)) prop
+    let pac := Node.propAcc index (.menuItemAcc index (.leaf .menu menuId index) (.leaf .menuItem itemId index)) prop false
     pure (st.addStmt index (assignNode index pac value))
   | "SoundPropertiesOpcode" => objProp .soundChan PropTables.soundProperties st index
   | "AssignSoundPropertiesOpcode" => assignObjProp .soundChan PropTables.soundProperties st index
@@ -402,7 +402,7 @@ def process0 (ctx : Ctx) (info : Opcodes.OpInfo) (index : Int) (st : PState) : R
     let (optype, st) ← popInt st
     let t ← listGet PropTables.numOfTypes optype
     if t = S "perFrameHook" then
-      pure (st.push (.propAcc index (.leaf .localVar (.s (S "_system")) index) (S "perFrameHook")))
+      pure (st.push (.propAcc index (.leaf .localVar (.s (S "_system")) index) (S "perFrameHook") false))
     else pure (st.push (.unaryStr (S "number") index none (.leaf .localVar (.s t) index)))
   | "CastPropertiesOpcode" => objProp .cast PropTables.castProperties st index
   | "AssignCastPropertiesOpcode" => assignObjProp .cast PropTables.castProperties st index
@@ -410,7 +410,7 @@ def process0 (ctx : Ctx) (info : Opcodes.OpInfo) (index : Int) (st : PState) : R
     let (pi, st) ← popInt st
     let (x, st) ← st.pop
     let prop ← listGet PropTables.castProperties pi
-    pure (st.push (.propAcc index (fieldOf index x) prop))
+    pure (st.push (.propAcc index (fieldOf index x) prop false))
   | "AssignFieldPropertiesOpcode" => assignObjProp .cast PropTables.castProperties st index
   | "VideoPropertiesOpcode" => objProp .cast PropTables.videoProperties st index
   | "AssignVideoPropertiesOpcode" => assignObjProp .cast PropTables.videoProperties st index
@@ -490,14 +490,14 @@ def process1 (ctx : Ctx) (info : Opcodes.OpInfo) (p1 : Nat) (index : Int) (st : 
   | "LoadPropertyOpcode" => do
     let n ← nameAt ctx p1
     match dictGet PropTables.knownPropertiesAssign n with
-    | .ok owner => pure (st.push (.propAcc index (.leaf .localVar (.s owner) index) n))
+    | .ok owner => pure (st.push (.propAcc index (.leaf .localVar (.s owner) index) n false))
     | .error _ => pure (st.push (.leaf .propName (.s n) index))
   | "AssignPropertyOpcode" => do
     let n ← nameAt ctx p1
     let left : Node :=
-      if ctx.props.contains n then .propAcc index (.leaf .node (.s (S "me")) index) n
+      if ctx.props.contains n then .propAcc index (.leaf .node (.s (S "me")) index) n false
       else match dictGet PropTables.knownPropertiesAssign n with
-        | .ok owner => .propAcc index (.leaf .localVar (.s owner) index) n     -- same object as LoadPropertyOpcode reads
+        | .ok owner => .propAcc index (.leaf .localVar (.s owner) index) n false     -- same object as LoadPropertyOpcode reads
         | .error _ => .leaf .propName (.s n) index
     let (r, st) ← st.pop
     pure (st.addStmt index (assignNode index left r))
@@ -549,12 +549,12 @@ def process1 (ctx : Ctx) (info : Opcodes.OpInfo) (p1 : Nat) (index : Int) (st : 
   | "PropertyAccesorOpcode" => do
     let prop ← nameAt ctx p1
     let (x, st) ← st.pop
-    pure (st.push (.propAcc index x prop))
+    pure (st.push (.propAcc index x prop true))
   | "AssignPropertyAccesorOpcode" => do
     let (value, st) ← st.pop
     let (node, st) ← st.pop
     let prop ← nameAt ctx p1
-    pure (st.addStmt index (assignNode index (.propAcc index node prop) value))
+    pure (st.addStmt index (assignNode index (.propAcc index node prop true) value))
   | "KeyPropertyAccesorOpcode" => do
     let prop ← nameAt ctx p1
     let (e, st) ← st.pop
